@@ -179,7 +179,7 @@ func c19WriteProgram(dir string, cases []c19Case, mutate func(src string) string
 	var calls []string
 	// package sub: the twins that are functions
 	var sb strings.Builder
-	sb.WriteString("package sub\n\n// Park is set by package main.\nvar Park func()\n\n")
+	sb.WriteString("package sub\n\n// Park is set by package main.\nvar Park func(int)\n\n")
 	nSub := 0
 	for _, c := range cases {
 		if !c.sub {
@@ -191,7 +191,7 @@ func c19WriteProgram(dir string, cases []c19Case, mutate func(src string) string
 			params = append(params, fmt.Sprintf("p%d %s", i, c19Kinds[k].typ))
 			names = append(names, fmt.Sprintf("p%d", i))
 		}
-		fmt.Fprintf(&sb, "func %s(%s) {\n\tPark()\n}\n\n", c.name, strings.Join(params, ", "))
+		fmt.Fprintf(&sb, "func %s(%s) {\n\tPark(7)\n}\n\n", c.name, strings.Join(params, ", "))
 		fmt.Fprintf(&sb, "// Call%s forwards to %s.\nfunc Call%s(%s) {\n\t%s(%s)\n}\n\n", c.name, c.name, c.name, strings.Join(params, ", "), c.name, strings.Join(names, ", "))
 	}
 	_ = os.MkdirAll(filepath.Join(dir, "sub"), 0o755)
@@ -222,16 +222,16 @@ func c19WriteProgram(dir string, cases []c19Case, mutate func(src string) string
 				continue
 			}
 			if c.method && c.recvU {
-				fmt.Fprintf(&b, "func (r *U) %s(%s) {\n\tpark()\n}\n\n", c.name, strings.Join(params, ", "))
+				fmt.Fprintf(&b, "func (r *U) %s(%s) {\n\tpark(7)\n}\n\n", c.name, strings.Join(params, ", "))
 				fmt.Fprintf(&b, "func callu%s() {\n\t(&U{}).%s(%s)\n}\n\n", c.name, c.name, strings.Join(args, ", "))
 				calls = append(calls, "callu"+c.name)
 				continue
 			}
 			if c.method {
-				fmt.Fprintf(&b, "func (r *T) %s(%s) {\n\tpark()\n}\n\n", c.name, strings.Join(params, ", "))
+				fmt.Fprintf(&b, "func (r *T) %s(%s) {\n\tpark(7)\n}\n\n", c.name, strings.Join(params, ", "))
 				fmt.Fprintf(&b, "func call%s() {\n\t(&T{}).%s(%s)\n}\n\n", c.name, c.name, strings.Join(args, ", "))
 			} else {
-				fmt.Fprintf(&b, "func %s(%s) {\n\tpark()\n}\n\n", c.name, strings.Join(params, ", "))
+				fmt.Fprintf(&b, "func %s(%s) {\n\tpark(7)\n}\n\n", c.name, strings.Join(params, ", "))
 				fmt.Fprintf(&b, "func call%s() {\n\t%s(%s)\n}\n\n", c.name, c.name, strings.Join(args, ", "))
 			}
 			calls = append(calls, "call"+c.name)
@@ -268,11 +268,19 @@ var (
 	long300 = strings.Repeat("x", 300)
 )
 
+// park takes an argument so that its frame, whose source is always found, is one the
+// analysis works on before it reaches the callee's frame.
+//
 //go:noinline
-func park() {
+func park(tag int) {
 	ready.Done()
 	<-block
 }
+
+// filler spans the line numbers at which the generated callees sit in their own files
+// (a frame wrongly looked up in this file lands in a function with parameters).
+func filler(a int, b string) {
+` + strings.Repeat("\t_, _ = a, b\n", 4000) + `}
 
 func main() {
 	sub.Park = park
@@ -355,7 +363,7 @@ func TestVerifC19(t *testing.T) {
 	}
 	defer os.RemoveAll(root)
 	cases := c19Cases(maxLen)
-	r.Set("rule", fmt.Sprintf("generated program: every parameter list of length 1..%d over %d kinds (bool, sized/unsized ints, floats, string, slices, pointers, map, chan, func), each as a function and as a pointer-receiver method, plus twins of 2 in 5 of them that share the bare name with a different parameter list (a method on another receiver type, a function in another package) (%d callees), boundary values rotating over the kinds' value tables; built with -gcflags 'all=-N -l' by the installed toolchain(s), every case parked in its callee, one real crash under GOTRACEBACK=all; the real traceback is parsed with source analysis on and off; oracle: each rendered argument matches an independent rendering of the literal passed; raw values identical with analysis on and off; mismatch part: the same dump against the source tree deleted / unparsable / line-shifted / with parameters added or removed / with 0 or 2 receivers / replaced by directories: no panic, everything but the typed rendering equal to the un-augmented parse, no rendering when the source is missing or unparsable. programs = toolchains x generated programs; non-trivial = callee with >= 2 parameters or a method", maxLen, len(c19Kinds), len(cases)))
+	r.Set("rule", fmt.Sprintf("generated program: every parameter list of length 1..%d over %d kinds (bool, sized/unsized ints, floats, string, slices, pointers, map, chan, func), each as a function and as a pointer-receiver method, plus twins of 2 in 5 of them that share the bare name with a different parameter list (a method on another receiver type, a function in another package) (%d callees), boundary values rotating over the kinds' value tables; built with -gcflags 'all=-N -l' by the installed toolchain(s), every case parked in its callee, one real crash under GOTRACEBACK=all; the real traceback is parsed with source analysis on and off; oracle: each rendered argument matches an independent rendering of the literal passed; raw values identical with analysis on and off; mismatch part: the same dump against the source tree deleted / unparsable / line-shifted / with parameters added or removed / with 0 or 2 receivers / replaced by directories / callees reported under a directory that is under no root: no panic, everything but the typed rendering equal to the un-augmented parse, no rendering when the source is missing or unparsable. programs = toolchains x generated programs; non-trivial = callee with >= 2 parameters or a method", maxLen, len(c19Kinds), len(cases)))
 	r.Set("assumptions", []string{"-N -l makes the traceback's argument words accurate", "a shifted line that still falls inside some function cannot be detected from a line number: only harmlessness is required there", "value receivers, variadic parameters, interfaces, structs and arrays are outside the statement's list of kinds"})
 	toolchains := []string{"go"}
 	if r.Thorough() {
@@ -487,6 +495,7 @@ func c19Mismatch(r *h.Run, dir string, files []string, cases []c19Case, dump []b
 		apply       func()
 		noRendering bool // Processed must be empty for the generated callees
 	}
+	dumpOf := map[string]func(d []byte) []byte{} // per variant: the dump to parse, when not the program's own
 	rewrite := func(f func(s string) string) func() {
 		return func() {
 			for fn, b := range orig {
@@ -529,9 +538,24 @@ func c19Mismatch(r *h.Run, dir string, files []string, cases []c19Case, dump []b
 			return strings.ReplaceAll(s, "func (r *T) ", "func (r T) ")
 		}), false},
 	}
+	// the sources are all there, but the dump says the generated callees were compiled
+	// from files under a directory that is under no root (park(), in main.go, still is):
+	// frames whose source cannot be located are left alone whatever was loaded before
+	variants = append(variants, variant{"callees-under-no-root", func() {}, true})
+	dumpOf["callees-under-no-root"] = func(d []byte) []byte {
+		return bytes.ReplaceAll(d, []byte(dir+"/cases"), []byte("/nowhere/at/all/cases"))
+	}
+	origDump, origRef := dump, ref
 	for _, v := range variants {
 		restore()
 		v.apply()
+		dump, ref = origDump, origRef
+		if f := dumpOf[v.name]; f != nil {
+			dump = f(origDump)
+			if off := scanOnce(bytes.NewReader(dump), &Opts{GuessPaths: true, AnalyzeSources: false, NameArguments: true}); off.snap != nil {
+				ref = canonNoProcessed(off.snap)
+			}
+		}
 		res := scanOnce(bytes.NewReader(dump), &Opts{GuessPaths: true, AnalyzeSources: true, NameArguments: true})
 		key := "mismatch " + v.name
 		out := "ok"
